@@ -567,7 +567,11 @@ def check_C16(tier, only):
                 n, clo = args
                 body = closure_body(clo)
                 return Arr(n[1], lambda i, clo=clo, body=body: run_closure(body, clo, i))
-            if callee.endswith('::len'): return ('iconst', args[0].n)
+            if re.search(r'::(mapv|mapv_into|map)(::<[^(]*>)?$', callee) and len(args) == 2 and isinstance(args[0], Arr) and isinstance(args[1], Closure):
+                arr, clo = args
+                body = closure_body(clo)
+                return Arr(arr.n, lambda i, arr=arr, clo=clo, body=body: run_closure(body, clo, arr.elem(i)))
+            if callee.endswith('::len') and isinstance(args[0], Arr): return ('iconst', args[0].n)
             if 'Index<usize>>::index' in callee:
                 return args[0].elem(args[1][1])
             if callee.endswith('Geometry::dimension'):
@@ -576,7 +580,8 @@ def check_C16(tier, only):
             return None
 
         def run_closure(body, clo, i):
-            it = Interp(body, {'_1': clo, '_2': ('iconst', i)}, glue=glue); it.enums = enums
+            # i: a cell index (from_shape_fn) or the element value (mapv)
+            it = Interp(body, {'_1': clo, '_2': ('iconst', i) if isinstance(i, int) else i}, glue=glue); it.enums = enums
             return it.run()
 
         def axis_for(geom, n):
@@ -618,6 +623,8 @@ def check_C16(tier, only):
             for n in ns:
                 ax = axis_for(geom, n)
                 w = ax.fields[ax.names.index('integration_weights')]
+                if not isinstance(w, Arr):
+                    raise RuntimeError('integration weights of %s are built by an array operation the glue does not model: %r' % (geom, w))
                 total = None
                 for k in range(n):
                     e = w.elem(k)
